@@ -14,7 +14,7 @@ def run(chk):
     chk.assumptions += [
         "time passes only in the operation and the sleeper; monotonic clock non-decreasing; 1/64 s grid",
         "decision callbacks (classifier, strategy, sleep handler, sleeper) do not raise ordinary exceptions; attempt_timeout_s=None",
-        "timeline equality and Policy's breaker events are tied by correspondence/oracle only (not by a theorem)",
+        "Policy's breaker events and the timeline's elapsed_s stamps are tied by correspondence/oracle only (not by a theorem)",
     ]
     rc.run_runner_check(chk, "C14", "proj_C14", OPTS)
 
